@@ -321,18 +321,41 @@ theorem serveStep_spec (c : Cfg) (sv : Srv) (src : Sid) (off : Int) (ep rid : Na
         | err e => rw [hr] at hm; exact ⟨_, _, [], hm, Or.inl rfl⟩
         | panic => rw [hr] at hm; exact ⟨_, _, [], hm, Or.inl rfl⟩
 
-theorem applyRespStep_spec (sv : Srv) (ep : Nat) (hw : Int) (recs : List Rec) (hlog : LogOK sv.log)
-    (hs : Sorted recs) :
-    LogOK (applyRespStep sv ep hw recs).log ∧ sv.log.newest ≤ (applyRespStep sv ep hw recs).log.newest ∧
-    (applyRespStep sv ep hw recs).isrOff = sv.isrOff := by
-  unfold applyRespStep
+/-- `applyRespStep` with the HW the follower adopts abstracted to an arbitrary function of its
+log (`cap`), applied before the append and — when `again` — once more on the appended log.
+`applyRespStep` is the instance given by the regenerated fact `Gen.Protocol.followerHwCapped`
+(`applyRespStep_eq_core`), so the lemma below covers the code before and after fix ba85aea. -/
+def applyRespCore (cap : CLog → Int) (again : Bool) (sv : Srv) (epoch : Nat) (recs : List Rec) : Srv :=
+  if sv.role ≠ .follower then sv
+  else if Gen.Protocol.replRespEpochCmp.evalNat sv.leaderEpoch epoch then sv
+  else
+    let log := sv.log.setHW (cap sv.log)
+    match recs with
+    | [] => { sv with log := log }
+    | r :: _ =>
+      if Gen.Protocol.replRespOffsetCmp.evalInt r.offset (log.newest + 1) then { sv with log := log }
+      else match log.appendSet recs with
+        | .ok (log', _) => { sv with log := if again then log'.setHW (cap log') else log' }
+        | _ => { sv with log := log }
+
+theorem applyRespStep_eq_core (sv : Srv) (ep : Nat) (hw : Int) (recs : List Rec) :
+    applyRespStep sv ep hw recs =
+      applyRespCore (fun l => if Gen.Protocol.followerHwCapped then (if hw < l.newest then hw else l.newest) else hw)
+        Gen.Protocol.followerHwCapped sv ep recs := rfl
+
+theorem applyRespCore_spec (cap : CLog → Int) (again : Bool) (sv : Srv) (ep : Nat) (recs : List Rec)
+    (hlog : LogOK sv.log) (hs : Sorted recs) :
+    LogOK (applyRespCore cap again sv ep recs).log ∧ sv.log.newest ≤ (applyRespCore cap again sv ep recs).log.newest ∧
+    (applyRespCore cap again sv ep recs).isrOff = sv.isrOff := by
+  unfold applyRespCore
   split
   · exact ⟨hlog, Int.le_refl _, rfl⟩
   · split
     · exact ⟨hlog, Int.le_refl _, rfl⟩
     · simp only
-      have hl' := hlog.setHW hw
-      have hn' : (sv.log.setHW hw).newest = sv.log.newest := newest_setHW _ _
+      generalize cap sv.log = x
+      have hl' := hlog.setHW x
+      have hn' : (sv.log.setHW x).newest = sv.log.newest := newest_setHW _ _
       split
       · exact ⟨hl', by rw [hn']; exact Int.le_refl _, rfl⟩
       · rename_i r rest
@@ -342,15 +365,27 @@ theorem applyRespStep_spec (sv : Srv) (ep : Nat) (hw : Int) (recs : List Rec) (h
           simp only [Gen.Protocol.replRespOffsetCmp, Cmp.evalInt, decide_eq_true_eq, Int.not_lt] at hoff
           split
           · rename_i log' offs ha
-            have hge : ∀ x ∈ r :: rest, (sv.log.setHW hw).nextOffset ≤ x.offset := by
-              intro x hx
-              have h0 : (sv.log.setHW hw).nextOffset ≤ r.offset := by unfold newest at hoff; omega
-              rcases List.mem_cons.mp hx with rfl | hx
+            have hge : ∀ y ∈ r :: rest, (sv.log.setHW x).nextOffset ≤ y.offset := by
+              intro y hy
+              have h0 : (sv.log.setHW x).nextOffset ≤ r.offset := by unfold newest at hoff; omega
+              rcases List.mem_cons.mp hy with rfl | hy
               · exact h0
-              · have := (List.pairwise_cons.mp hs).1 x hx; omega
+              · have := (List.pairwise_cons.mp hs).1 y hy; omega
             obtain ⟨h1, h2⟩ := appendSet_grow hl' (by simp) hs hge ha
-            exact ⟨h1, by rw [← hn']; exact h2, rfl⟩
+            simp only
+            cases again with
+            | false => exact ⟨h1, by rw [← hn']; exact h2, trivial⟩
+            | true =>
+              simp only [if_true]
+              exact ⟨h1.setHW _, by rw [newest_setHW, ← hn']; exact h2, trivial⟩
           · exact ⟨hl', by rw [hn']; exact Int.le_refl _, rfl⟩
+
+theorem applyRespStep_spec (sv : Srv) (ep : Nat) (hw : Int) (recs : List Rec) (hlog : LogOK sv.log)
+    (hs : Sorted recs) :
+    LogOK (applyRespStep sv ep hw recs).log ∧ sv.log.newest ≤ (applyRespStep sv ep hw recs).log.newest ∧
+    (applyRespStep sv ep hw recs).isrOff = sv.isrOff := by
+  rw [applyRespStep_eq_core]
+  exact applyRespCore_spec _ _ sv ep recs hlog hs
 
 theorem commitStep_spec (c : Cfg) (sv : Srv) (hlog : LogOK sv.log) :
     LogOK (commitStep c sv).1.log ∧ (commitStep c sv).1.log.newest = sv.log.newest ∧
